@@ -187,6 +187,8 @@ def run_scenario(task):
                 scn.setup['sym_setup'](env)
             install.install_symbolic(cpu_count=scn.setup.get('cpu_count_fn') and (lambda: scn.setup['cpu_count_fn'](env)),
                                      nondet_set=scn.setup.get('nondet_set_fn') and scn.setup['nondet_set_fn'](env))
+            if scn.setup.get('sym_post'):
+                scn.setup['sym_post'](env)
             if scn.setup.get('par_sharedmem') == 'order':
                 import itertools
 
@@ -785,7 +787,7 @@ def main(argv=None):
     if a.only:
         scns = [s for s in scns if fnmatch.fnmatch(s.name, a.only)]
     if a.budget is None:
-        a.budget = float(os.environ.get('SX_BUDGET_S', '240' if a.tier == 'quick' else '900'))
+        a.budget = float(os.environ.get('SX_BUDGET_S', '700' if a.tier == 'quick' else '900'))
     deadline = None
     base = set()
     if a.tier == 'thorough' and not a.only:
